@@ -341,13 +341,24 @@ func concreteReq(q Req, r *rand.Rand) (method, target string, hdr http.Header) {
 	return
 }
 
+// otherStatuses concretises the abstract class "s500" (= any failure status that is neither a denial nor
+// 429 / 503): the statement gives no grace to any of them, gateways answer 502 / 504, frameworks 400 / 404.
+var otherStatuses = []string{"s500", "s500", "s502", "s504", "s501", "s400", "s404", "s409", "s418", "s507", "s599", "s302", "s204"}
+
+func concreteClass(c string, r *rand.Rand) string {
+	if c == "s500" {
+		return otherStatuses[r.Intn(len(otherStatuses))]
+	}
+	return c
+}
+
 func script(a Ans, r *rand.Rand) map[string]world.Answer {
 	s := map[string]world.Answer{}
 	if a.Refresh != "na" {
-		s["refresh"] = world.Answer{Class: a.Refresh, ExpiresIn: int64(a.Rexp)*1000 + 500, Token: "at-new"}
+		s["refresh"] = world.Answer{Class: concreteClass(a.Refresh, r), ExpiresIn: int64(a.Rexp)*1000 + 500, Token: "at-new"}
 	}
 	if a.Validate != "na" {
-		s["validate"] = world.Answer{Class: a.Validate}
+		s["validate"] = world.Answer{Class: concreteClass(a.Validate, r)}
 	}
 	switch a.Profile {
 	case "na":
@@ -356,7 +367,7 @@ func script(a Ans, r *rand.Rand) map[string]world.Answer {
 	case "nonmember":
 		s["profile"] = world.Answer{Class: "deny", Groups: [][]string{{}, {"other"}, {"ENG"}, {"eng "}, {"engx", "xeng"}}[r.Intn(5)]}
 	default:
-		s["profile"] = world.Answer{Class: a.Profile}
+		s["profile"] = world.Answer{Class: concreteClass(a.Profile, r)}
 	}
 	return s
 }
